@@ -723,7 +723,7 @@ class NR1dNsMinimizerImpl(
         if not at_boundary:
             (f, fprime, fprimeprime) = func(x, *func_args)
 
-        if niter == max_steps:
+        if niter >= max_steps:
             status['warnflag'] = 1
             status['warnreason'] = (
                 f'NR optimization did not converge within {niter} NR steps.')
